@@ -389,7 +389,8 @@ tracker_next_timeout_promiscuous(const tracker::Tracker& tracker) {
 
     interval = tracker_state.failed_time_next() - tracker_state.failed_time_last();
   } else {
-    interval = tracker_state.normal_interval();
+    // Never announce before the tracker's minimum interval.
+    interval = std::max(tracker_state.normal_interval(), tracker_state.min_interval());
   }
 
   auto min_interval = std::max(tracker_state.min_interval(), 300s);
